@@ -24,7 +24,7 @@ RULE = (
     "from_vector(perturbed parameters) for the vectorizable alignments}; every step names the live object (original, a "
     "copy, a from_vector result) it acts on.  After every step every live object is compared with the fresh construction "
     "it has to equal.  Non-trivial: >= 2 accepted retargets with distinct targets and, for classes with options, at some "
-    "retarget step the fresh fit with an option flipped differs by > 1e-3 (relative) on the probes.  The GPA clause draws "
+    "retarget step the fresh fit with an option flipped differs by > 1e-3 (absolute; coordinates are O(10)) on the probes.  The GPA clause draws "
     "3-6 similarity-related noisy shapes (half of them reflected) in 2-D/3-D and allow_mirror.  Distinct = distinct "
     "canonical-JSON digest."
 )
@@ -294,7 +294,7 @@ def run_history(c, ctx):
         base = fresh_for(ti)
         for label, o2 in _flip_options(c):
             alt = Observed(build(c, o2, src, pool[ti]), q, homog)
-            if max(maxdiff(alt.out, base.out), maxdiff(alt.aligned, base.aligned)) > 1e-3 * 10.0:
+            if max(maxdiff(alt.out, base.out), maxdiff(alt.aligned, base.aligned)) > 1e-3:
                 visible[label] = True
 
     def check_fresh_and_reference(o, ti, what):
@@ -478,7 +478,7 @@ def c_gpa(c, ctx):
             ctx.expect(close(t.h_matrix, h_ref, rtol=0, atol=1e-7 * sc), "gpa.transform_differs_from_reference_similarity",
                        lambda t=t, h_ref=h_ref: info + "\n" + describe(t.h_matrix, h_ref))
         alt = mt.AlignmentSimilarity(PointCloud(arrays[i].copy()), PointCloud(gt.copy()), allow_mirror=not am)
-        if maxdiff(alt.h_matrix, fresh.h_matrix) > 1e-3 * sc:
+        if maxdiff(alt.h_matrix, fresh.h_matrix) > 1e-3:
             vis = True
     for i, s in enumerate(sources):
         dd = digest.digest_diff(dg[i], digest.digest(s))
@@ -490,12 +490,12 @@ def c_gpa(c, ctx):
 
 
 CLAUSES = [
-    Clause("history_homogeneous", c_homog, s_homog, quick=1100, thorough=30000, nt_floor=0.4,
+    Clause("history_homogeneous", c_homog, s_homog, quick=1500, thorough=30000, nt_floor=0.4,
            rule="set_target / rejected target / copy / from_vector histories on the 5 homogeneous alignment classes x options x 2-D/3-D; "
                 "non-trivial: >= 2 accepted retargets with distinct targets and (if the class has options) an option visibly matters"),
-    Clause("history_warp", c_warp, s_warp, quick=600, thorough=15000, nt_floor=0.4,
+    Clause("history_warp", c_warp, s_warp, quick=800, thorough=20000, nt_floor=0.4,
            rule="the same histories on ThinPlateSplines (kernel x floor) and PythonPWA/CachedPWA (PointCloud / explicit TriMesh source)"),
-    Clause("gpa", c_gpa, s_gpa, quick=300, thorough=8000, nt_floor=0.4,
+    Clause("gpa", c_gpa, s_gpa, quick=400, thorough=8000, nt_floor=0.4,
            rule="GeneralizedProcrustesAnalysis(target=None): each transform is the alignment of its own source to the reported target; "
                 "non-trivial: at least one mean-shape update happened"),
 ]
